@@ -477,7 +477,7 @@ def parse_config(path):
         _input["paths"] = None
 
     # Output fields are optional, default: most data output, least logging output.
-    _output = toml.get("output", {})
+    _output = toml.setdefault("output", {})
     if "directory" in _output:
         _output["directory"] = resolve_path(_output["directory"], path.parent)
     else:
@@ -670,8 +670,10 @@ def _parse_config_input_postpaths(input, path):
 
 def _parse_output_options(output_opts, level, phase_assemblage):
     try:
+        # By default, output is produced for all simulated mineral phases.
         output_opts[level] = [
-            getattr(_core.MineralPhase, ϕ) for ϕ in output_opts[level]
+            ϕ if isinstance(ϕ, _core.MineralPhase) else getattr(_core.MineralPhase, ϕ)
+            for ϕ in output_opts.get(level, phase_assemblage)
         ]
     except AttributeError:
         raise _err.ConfigError(
